@@ -12,6 +12,9 @@ From Coq Require Import Permutation.
 From CR Require Import Model.Api.
 From CR Require Import Proofs.Metrics.
 From CR Require Import Proofs.Api.
+(* the plugin lock can never hang an RA build / scrape / API request: C17_lock_discipline (extracted),
+   C17_lock_no_deadlock, C17_lock_terminates, C17_lock_reentrant_deadlock are stated in Properties/C17lock.v *)
+From CR Require Properties.C17lock.
 Local Open Scope Z_scope.
 
 (* A successful scrape is, up to order, exactly the specified samples: one per prefix (x4) / route / RDNSS / DNSSL
